@@ -64,7 +64,11 @@ func (g *gen) userTxn(rogue bool) {
 					cands = append(cands, k)
 				}
 			}
-			cands = append(cands, pendingReg...)
+			for _, k := range pendingReg {
+				if strings.HasPrefix(k, fmt.Sprintf("%d/", t)) {
+					cands = append(cands, k)
+				}
+			}
 			if len(cands) > 0 {
 				// deterministic choice: smallest name
 				best := cands[0]
@@ -94,6 +98,8 @@ func (g *gen) clientOps() {
 	case x < 8 && !g.dStarted:
 		g.p("dstart")
 		g.dStarted = true
+	case x < 12 && g.dStarted:
+		g.injected(1 + g.r.Intn(2))
 	case x < 45 && g.dStarted:
 		k := 1 + g.r.Intn(3)
 		for i := 0; i < k; i++ {
@@ -117,6 +123,94 @@ func (g *gen) clientOps() {
 	default:
 		g.p("q %d %s", g.r.Intn(2), hx.Pick(g.r, []string{"all", "init", "rev"}))
 	}
+}
+
+// a leg of the loop with a harness transaction on the input table committing inside its k-th transform call
+func (g *gen) injected(k int) {
+	var lines []string
+	lines = append(lines, "begin 0")
+	n := 1 + g.r.Intn(2)
+	for i := 0; i < n; i++ {
+		switch x := g.r.Intn(100); {
+		case x < 50:
+			lines = append(lines, fmt.Sprintf("insert 0 %s %d", hx.Pick(g.r, ids), g.r.Intn(16)))
+		case x < 70:
+			lines = append(lines, fmt.Sprintf("delete 0 %s", hx.Pick(g.r, ids)))
+		default:
+			best := ""
+			for k := range g.regd {
+				if strings.HasPrefix(k, "0/") && (best == "" || k < best) {
+					best = k
+				}
+			}
+			if best != "" {
+				lines = append(lines, "initdone 0 "+strings.SplitN(best, "/", 2)[1])
+			} else {
+				lines = append(lines, fmt.Sprintf("insert 0 %s %d", hx.Pick(g.r, ids), g.r.Intn(16)))
+			}
+		}
+	}
+	lines = append(lines, "commit")
+	g.p("dgoinj %d %d", k, len(lines))
+	for _, l := range lines {
+		g.p("%s", l)
+	}
+	g.p("dstat")
+}
+
+// directed: the input table's last initializer is completed, together with a new object, by a transaction that
+// commits while the loop's transaction is open (after its snapshot, before its initialization check)
+func (g *gen) directedSkew(id string, mode int) {
+	g.p("#case %s", id)
+	g.p("mode %d", mode)
+	g.p("begin 0")
+	g.p("reginit 0 1")
+	g.p("insert 0 61 4")
+	g.p("commit")
+	g.p("dstart")
+	g.p("dgo")
+	g.p("dgoinj 1 4")
+	g.p("begin 0")
+	g.p("insert 0 62 8")
+	g.p("initdone 0 1")
+	g.p("commit")
+	g.p("dstat")
+	g.p("q 1 init")
+	g.p("q 1 all")
+	g.p("dgo")
+	g.p("q 1 init")
+	g.p("q 1 all")
+	g.p("dgo")
+	g.p("dgo")
+	g.p("dstat")
+}
+
+// directed: more changes in one round than any plausible batch size, in the round that first sees the input
+// initialized
+func (g *gen) directedBulk(id string, n int) {
+	g.p("#case %s", id)
+	g.p("mode 0")
+	g.p("begin 0")
+	g.p("reginit 0 1")
+	g.p("commit")
+	g.p("dstart")
+	g.p("dgo")
+	g.p("dgo")
+	g.p("dgo")
+	g.p("begin 0")
+	for i := 0; i < n; i++ {
+		g.p("insert 0 %04x %d", i, i%16)
+	}
+	g.p("initdone 0 1")
+	g.p("commit")
+	g.p("dgo")
+	g.p("q 1 init")
+	g.p("q 1 rev")
+	g.p("dgo")
+	g.p("dgo")
+	g.p("q 1 init")
+	g.p("q 1 rev")
+	g.p("dstat")
 }
 
 func (g *gen) randomCase(id string) {
@@ -265,6 +359,12 @@ func (e *eng) Gen(r *hx.Rand, n int, tier string, prop string, out *hx.Out) {
 			(&gen{r: r.Fork(), out: out}).directedInit(fmt.Sprintf("%s-dinit-%d", prop, k), mode, cf)
 			k++
 		}
+	}
+	(&gen{r: r.Fork(), out: out}).directedSkew(prop+"-dskew-0", 0)
+	(&gen{r: r.Fork(), out: out}).directedSkew(prop+"-dskew-1", 1)
+	(&gen{r: r.Fork(), out: out}).directedBulk(prop+"-dbulk-0", 300)
+	if tier == "thorough" {
+		(&gen{r: r.Fork(), out: out}).directedBulk(prop+"-dbulk-1", 1100)
 	}
 	(&gen{r: r.Fork(), out: out}).directedObserve(prop+"-dobs-0", false)
 	(&gen{r: r.Fork(), out: out}).directedObserve(prop+"-dobs-1", true)
